@@ -95,6 +95,22 @@ class SymH:
     def list_int(self, name, nd=False):
         return self.list_real(name, nd, 'int')
 
+    def matrix(self, name, nrows, ncols, nd=True):
+        """2-d array / list of separate rows with symbolic shape (by-value rows: rows are distinct objects)"""
+        rows = z3.Array(name + '_r', z3.IntSort(), z3.ArraySort(z3.IntSort(), z3.RealSort()))
+        r = self.st.alloc('rows', {'len': zint(nrows), 'rows': rows, 'ncols': zint(ncols)}, name=name, nd=nd)
+        self._inf_axiom()
+        a, b = z3.Int(name + '_qa'), z3.Int(name + '_qb')
+        sel = z3.Select(z3.Select(rows, a), b)
+        self.st.assume(z3.ForAll([a, b], z3.And(-INF < sel, sel < INF)))
+        self.st.assumptions.add('rows of a 2-d population are separate objects (no two rows alias)')
+
+        def get(m, rows=rows, nr=zint(nrows), nc=zint(ncols)):
+            R, Cn = min(int(_num(m, nr)), 8), min(int(_num(m, nc)), 8)
+            return [[_num(m, z3.Select(z3.Select(rows, i), j)) for j in range(Cn)] for i in range(R)]
+        self._reg(name, get)
+        return r
+
     def clist(self, items, nd=False, name=None):
         return self.st.alloc('clist', list(items), name=name, nd=nd)
 
@@ -143,7 +159,7 @@ class SymH:
 
     # ------------------------------------------------------------ abstract callables
     def fn(self, name, ret='real', raises=(), attrs=None, missing=(), pure=True, nargs=None, sym=None, native=None,
-           log=None, mutates=False):
+           log=None, mutates=False, minlen=0):
         """abstract callable.  ret: real | int | bool | opaque | list | same (returns a list of the length of arg 0).
         Deterministic in its numeric/list arguments (uninterpreted function).  `raises`: exception type names
         that it may raise (decided by an uninterpreted predicate of the arguments)."""
@@ -174,6 +190,7 @@ class SymH:
             for a in list(args) + [kwargs[k] for k in sorted(kwargs)]:
                 enc.extend(H._encode(a))
             sig = tuple(e.sort() for e in enc)
+            H._congruence(name, enc)
             for ex in raises:
                 p = H._uf(name + '!raises_' + ex, sig, z3.BoolSort())
                 if I.st.branch(p(*enc) if enc else p()):
@@ -211,7 +228,7 @@ class SymH:
                 else:
                     fl = H._uf(name + '!len', sig, z3.IntSort())
                     ln = fl(*enc)
-                    I.st.assume(ln >= 0)
+                    I.st.assume(ln >= minlen)
                 return I.st.alloc('slist', {'len': ln, 'arr': fa(*enc), 'ek': 'real'}, name=name + '_res',
                                   nd=ret in ('ndarray', 'same_nd'))
             if ret == 'none':
@@ -229,6 +246,38 @@ class SymH:
 
     def log(self, name):
         return tuple(self.st.ghost.get(name, []))
+
+    def _congruence(self, name, enc):
+        """lists are passed to uninterpreted functions as (len, array); two argument tuples that agree on
+        [0,len) denote the same python lists, so they must get the same results.  Instantiated pairwise
+        (the quantifier sits in an antecedent: it skolemises, so sat-queries stay decidable)."""
+        apps = self.__dict__.setdefault('_apps', {}).setdefault(name, [])
+        if not any(z3.is_array(e) for e in enc):
+            return
+        for old in apps:
+            if len(old) != len(enc) or any(a.sort() != b.sort() for a, b in zip(old, enc)):
+                continue
+            same = []
+            j = 0
+            while j < len(enc):
+                if j + 1 < len(enc) and z3.is_array(enc[j + 1]) and enc[j].sort() == z3.IntSort():
+                    k = z3.Int(self.st.fresh_name('k!cg'))
+                    same.append(enc[j] == old[j])
+                    same.append(z3.ForAll([k], z3.Implies(z3.And(k >= 0, k < enc[j]),
+                                                          z3.Select(enc[j + 1], k) == z3.Select(old[j + 1], k))))
+                    j += 2
+                else:
+                    same.append(enc[j] == old[j])
+                    j += 1
+            eqs = []
+            for uname, (f, (sig, ret)) in self.ufs.items():
+                if (uname == name or uname.startswith(name + '!')) and len(sig) == len(enc) and \
+                        all(sg == e.sort() for sg, e in zip(sig, enc)):
+                    eqs.append(f(*enc) == f(*old))
+            if eqs:
+                self.st.assume(z3.Implies(z3.And(*same), z3.And(*eqs)))
+        apps.append(list(enc))
+        self.__dict__.setdefault('_pending_cg', []).append((name, list(enc)))
 
     def _uf(self, name, sig, ret):
         key = name
@@ -257,9 +306,7 @@ class SymH:
                 return out
             ln, arr, ek = Mo.to_slist(self.I, a)
             arr = Mo._coerce_arr(arr, ek, 'real')
-            # canonical form: entries outside [0,len) do not matter to the callable
-            kk = z3.Int('k!n')
-            arr = z3.Lambda([kk], z3.If(z3.And(kk >= 0, kk < ln), z3.Select(arr, kk), z3.RealVal(0)))
+            # entries outside [0,len) do not matter to the callable: see _congruence
             return [ln, arr]
         return []      # non-numeric arguments (objects, callables, strings) do not enter the UF
 
@@ -312,7 +359,7 @@ class SymH:
         """reachability: the condition must be satisfiable here (vacuity guard)"""
         v = self.ev(expr, **env)
         t = self.I.truth_term(v)
-        ok = t if isinstance(t, bool) else (self.st._check(t) == z3.sat)
+        ok = t if isinstance(t, bool) else (self.st._check(t) != z3.unsat)
         self.st.obligations.append(Obl('cover:' + label, 'covered' if ok else 'uncovered'))
 
     def snapshot(self, v):
@@ -616,6 +663,18 @@ class NativeH:
     def list_int(self, name, nd=False):
         return self.list_real(name, nd, 'int')
 
+    def matrix(self, name, nrows, ncols, nd=True):
+        def gen():
+            return [[self._rnd_real() for _ in range(int(ncols))] for _ in range(int(nrows))]
+        v = self._val(name, gen)
+        v = [[self._flt(x) for x in row][:int(ncols)] + [0.0] * max(0, int(ncols) - len(row)) for row in v][:int(nrows)]
+        while len(v) < int(nrows):
+            v.append([0.0] * int(ncols))
+        if nd:
+            import numpy
+            return numpy.array(v, dtype=float).reshape(int(nrows), int(ncols))
+        return v
+
     def clist(self, items, nd=False, name=None):
         if nd:
             import numpy
@@ -666,8 +725,10 @@ class NativeH:
 
     # ------------------------------------------------------------ abstract callables
     def fn(self, name, ret='real', raises=(), attrs=None, missing=(), pure=True, nargs=None, sym=None, native=None,
-           log=None, mutates=False):
+           log=None, mutates=False, minlen=0):
         H = self
+        self._minlen = getattr(self, '_minlen', {})
+        self._minlen[name] = minlen
         table = self.tables.setdefault(name, {})
         rec = self.record['tables'].setdefault(name, [])
 
@@ -739,7 +800,7 @@ class NativeH:
         if ret in ('same', 'same_nd'):
             return [self._rnd_real() for _ in _flat(args[0])]
         if ret in ('list', 'ndarray'):
-            return [self._rnd_real() for _ in range(r.choice([0, 1, 2, 3]))]
+            return [self._rnd_real() for _ in range(max(self._minlen.get(name, 0), r.choice([0, 1, 2, 3])))]
         return None
 
     def _from_model(self, name, ret, raises, args, kwargs):
@@ -836,7 +897,8 @@ class NativeH:
     def ev(self, expr, **env):
         ns = dict(NATIVE_NS)
         ns.update(env)
-        return eval(expr, {'__builtins__': __builtins__}, ns)
+        ns['__builtins__'] = __builtins__
+        return eval(expr, ns)       # one namespace, so lambdas inside the expression see the bindings
 
     def assume(self, expr, **env):
         v = self.ev(expr, **env) if isinstance(expr, str) else expr
